@@ -769,3 +769,55 @@ def rule_quotient_remainder_pair(ctx, files=("hdf/src/cnbit.c", "hdf/src/hbitio.
                 ctx.violated("QUOTREM", key, f.where(line), "`%s / 8` selects a byte, but the bit inside the byte is taken from `%s %% 8`: the two disagree when the position is a multiple of 8" % (r[:50], sorted(mod)[0][:50]))
     ctx.floor("QUOTREM", 2, n, "(byte/bit splits of a bit position)")
     return n
+
+
+def rule_difference_length_guarded(ctx, files=("hdf/src/cdeflate.c", "hdf/src/crle.c", "hdf/src/cskphuff.c", "hdf/src/cnbit.c", "hdf/src/cnone.c", "hdf/src/cszip.c")):
+    """POSLEN (C05): Hwrite refuses a length of 0 (it is an error, not a no-op).  The coders flush what is left in a buffer with
+    `Hwrite(aid, A - B, buf)`; when the buffer happens to be empty that difference is 0, the flush "fails", and with it the
+    Hendaccess of a perfectly good element.  Every such call sits inside a condition that compares the two terms of the
+    difference (`B < A`, `A > B`, `A != B`), so that it is made only when there is something to write."""
+    from .codec import ast_walk
+    from .facts import kind, strip, walk, render, calls_in, is_int
+    prog = ctx.prog
+    n = 0
+    for f in prog.lib_funcs():
+        if not f.rel.endswith(tuple(files)) or not f.raw.get("ast"):
+            continue
+        found = []
+
+        def vis(nd, st):
+            exprs = [nd[1]] if nd[0] in ("s", "if") and nd[1] is not None else []
+            for e in exprs:
+                for c in calls_in(e, True):
+                    if c[1] == "Hwrite" and len(c[3]) > 1:
+                        a = strip(c[3][1])
+                        if kind(a) == "bin" and a[1] == "-":
+                            found.append((nd, list(st), a))
+            return True
+
+        ast_walk(f.raw["ast"], vis)
+        k = 0
+        for nd, st, a in found:
+            k += 1
+            n += 1
+            key = "POSLEN:%s#%d" % (f.name, k)
+            A, B = render(strip(a[2])), render(strip(a[3]))
+            line = nd[-3] if isinstance(nd[-3], int) else f.line
+            ok = False
+            chain = st + [nd]
+            for i, s_ in enumerate(st):
+                if s_[0] != "if" or chain[i + 1] is not s_[2]:
+                    continue
+                for c in walk(s_[1], True):
+                    if c[0] == "bin" and c[1] in ("<", ">", "!=", "<=", ">="):
+                        l_, r_ = render(strip(c[2])), render(strip(c[3]))
+                        if (c[1] == "<" and l_ == B and r_ == A) or (c[1] == ">" and l_ == A and r_ == B) or (c[1] == "!=" and {l_, r_} == {A, B}):
+                            ok = True
+                        if c[1] == ">" and l_ == A and is_int(strip(c[3])) and is_int(strip(a[3])) and strip(c[3])[1] >= strip(a[3])[1]:
+                            ok = True
+            if ok:
+                ctx.holds("POSLEN", key, f.where(line), "`Hwrite(.., %s - %s, ..)` is made only when the difference is positive" % (A[:30], B[:30]), nontrivial=True)
+            else:
+                ctx.violated("POSLEN", key, f.where(line), "`Hwrite(.., %s - %s, ..)` is not guarded by a comparison of the two terms: when the buffer is empty the length is 0, Hwrite fails, and the element's end-access fails with it" % (A[:40], B[:40]))
+    ctx.floor("POSLEN", 2, n, "(coder flushes whose length is a difference)")
+    return n
